@@ -206,6 +206,8 @@ CHECKS = {
                       "clients against stub-runner units; a monitor on every status rewrite (old and new record read under the writer's lock "
                       "through the step hook) and on every client-visible report checks stage monotonicity, frozen succeeded units and "
                       "non-shrinking sizes; released units must be gone from disk and from every later answer; IDs and directories unique. "
+                      "Requests also name units by other spellings of their directory (<id>/, <id>/., ./<id>, <id>//, ../<node>/<id>): no two known "
+                      "units may designate one directory. "
                       "Also: lookups by other sessions inside a release's removal window, and (15 % of the runs) scheduled histories of updates, loads and "
                       "in-memory reports on one unit - what the daemon reports from memory never goes back",
         "level_note": "about 1 run in 20 replaces the stub runner by the real runner binary built from the tree (real shell payloads, some "
